@@ -207,6 +207,10 @@ def run(ctx, tag, U, vars_, pre, bbs, op, posts, split=(0, 0), conf_every=1, det
             real = sg.materialize(vars_, m, mkbbs(), OM=OM)
             rout = run_op(op, real)
             sym_state, real_state = sg.post_state(g, m), sg.real_state(real)
+            # the stand-in has one value for "a string that is no supported type" and one for "not a string"; which unsupported value a
+            # node carries is not part of the comparison
+            unsup = lambda st: ({n: (t if (t is None or (isinstance(t, str) and t in sg.TYPES)) else "<unsupported>", o) for n, (t, o) in st[0].items()}, st[1])
+            sym_state, real_state = unsup(sym_state), unsup(real_state)
             a, b = out.key(), rout.key()
             if normalize_ret:
                 a, b = normalize_ret(a), normalize_ret(b)
